@@ -742,6 +742,11 @@ class Builtins:
             return k(VInt(ite(args[0].t < 0, -args[0].t, args[0].t)), st)
         if name == "isinstance":
             return k(VBool(self.isinstance_(args[0], args[1], st)), st)
+        if name == "reversed" and len(args) == 1:
+            sq = self.seq_of(cx.resolve_ref(args[0], st), st)
+            if sq is None:
+                raise Unsupported("reversed of %r" % (args[0],))
+            return k(VFunc("iterable", seq=self.rev(sq)), st)
         if name == "chain.from_iterable":
             (its,) = args
             if not isinstance(its, VTuple):
